@@ -161,6 +161,9 @@ def strKeyO : OExpr → StrKey
     does the NameExpr case compare `name` next to `fullname`?  (refurb 2.0.0: no.) -/
 structure Cfg where
   cmpName : Bool
+  /-- `get_common_expr_positions` only pairs an operand of the first comparison with one of the second (refurb after
+      "FURB108/FURB124 need an operand shared BETWEEN the two comparisons"); false: every pair (`combinations(exprs, 2)`) -/
+  crossOnly : Bool
   deriving DecidableEq, Repr
 
 def Exprs.len : Exprs → Nat
@@ -244,7 +247,23 @@ def commonFrom (c : Cfg) : List Expr → Nat → Option (Nat × Nat)
     | some j => some (i, j)
     | none => commonFrom c t (i + 1)
 
-def commonPositions (c : Cfg) (l : List Expr) : Option (Nat × Nat) := commonFrom c l 0
+/-- `for (i, lhs), (j, rhs) in product(enumerate(exprs[:half]), enumerate(exprs[half:], half))`: `l` = what is left of the
+    first half (its head has index `i`), `r` = the whole second half (its head has index `h`) -/
+def crossFrom (c : Cfg) : List Expr → List Expr → Nat → Nat → Option (Nat × Nat)
+  | [], _, _, _ => none
+  | a :: t, r, i, h => match findFrom c a r h with
+    | some j => some (i, j)
+    | none => crossFrom c t r (i + 1) h
+
+/-- the search over all pairs (before the change) -/
+def commonAll (c : Cfg) (l : List Expr) : Option (Nat × Nat) := commonFrom c l 0
+
+/-- the search over cross pairs only: `half = len(exprs) // 2` -/
+def commonCross (c : Cfg) (l : List Expr) : Option (Nat × Nat) :=
+  crossFrom c (l.take (l.length / 2)) (l.drop (l.length / 2)) 0 (l.length / 2)
+
+def commonPositions (c : Cfg) (l : List Expr) : Option (Nat × Nat) :=
+  if c.crossOnly then commonCross c l else commonAll c l
 
 /-! ### the property's notion: syntactic identity -/
 
